@@ -73,13 +73,144 @@ def gen_histories(rng, d, n, prefix, with_foreign=True):
     return cases
 
 
+def later_values(ops, g):
+    later = collections.defaultdict(set)
+    cs = g.cs
+    for op in ops:
+        if op[0] == 'W':
+            for b in range(op[1] // 512, (op[1] + op[2] + 511) // 512):
+                later[b].add('w%x' % ((op[3] << 40) | (b & 0xffffffffff)))
+        elif op[0] == 'D':
+            end = min(op[1] + op[2], g.size)
+            st, sp_ = (op[1] + cs - 1) // cs * cs, end // cs * cs
+            for b in range(st // 512, max(st, sp_) // 512):
+                later[b].add('w0')
+    return later
+
+
+def seq_syncs(c, reqs, ls):
+    """sync points of a sequential history: (op index, index of the sync's last request, synced block values,
+    values later operations may put there, later ops, label)"""
+    res = {int(l.split()[1]): l.split()[2:] for l in ls if l.startswith('res ')}
+    # op numbering: open is op 0, ops follow
+    opres = [res.get(i + 1, ['?']) for i in range(len(c['ops']))]
+    syncs = []
+    flat = hist.Flat(c['g'].size, init=c['flat0'].blk)
+    flat.alloc = set(c['flat0'].alloc)
+    for oi, op in enumerate(c['ops']):
+        ok = opres[oi][0] == 'ok'
+        if op[0] == 'W' and ok:
+            flat.write(op[1], op[2], op[3], c['g'].cs)
+        elif op[0] == 'D' and ok:
+            flat.discard(op[1], op[2], c['g'].cs)
+        if op[0] == 'S' and ok and oi > 0 and c['ops'][oi - 1][0] == 'F' and opres[oi - 1][0] == 'ok':
+            idxs = [i for i, r in enumerate(reqs) if r['op'] == oi + 1]
+            if idxs:
+                lops = c['ops'][oi + 1:]
+                syncs.append((oi, max(idxs), dict(flat.blk), later_values(lops, c['g']), lops, 'op %d' % (oi + 1)))
+    return syncs
+
+
+def conc_syncs(c, reqs, ls):
+    """history = sequential prefix, one batch of concurrently running operations, sequential suffix.  A `Y`
+    (flush_meta + fsync_range) of the batch that returned Ok is a sync point for everything the prefix
+    acknowledged; the other operations of the batch and the suffix count as later operations (their blocks may
+    read either way).  Its position in the request stream is its last fsync."""
+    pre, par, suf = c['par']
+    res = {}
+    for l in ls:
+        if l.startswith('res '):
+            tk = l.split()
+            res[int(tk[1])] = tk[2:]
+    flat = hist.Flat(c['g'].size, init=c['flat0'].blk)
+    flat.alloc = set(c['flat0'].alloc)
+    syncs = []
+    for oi, op in enumerate(pre):
+        r = res.get(oi + 1, ['?'])
+        ok = r[0] == 'ok'
+        if op[0] == 'W' and ok:
+            flat.write(op[1], op[2], op[3], c['g'].cs)
+        elif op[0] == 'D' and ok:
+            flat.discard(op[1], op[2], c['g'].cs)
+        elif op[0] == 'Y' and ok:
+            idxs = [i for i, q in enumerate(reqs) if q['op'] == oi + 1]
+            if idxs:
+                lops = pre[oi + 1:] + par + suf
+                syncs.append((oi, max(idxs), dict(flat.blk), later_values(lops, c['g']), lops, 'op %d' % (oi + 1)))
+    base = len(pre) + 1
+    for ti, op in enumerate(par):
+        r = res.get(base + ti, ['?'])
+        # par results: res <n> <start step> <finish step> <result...>
+        if op[0] == 'Y' and len(r) > 2 and r[2] == 'ok':
+            idxs = [i for i, q in enumerate(reqs) if q['op'] == base and q['task'] == ti and q['kind'] == 'S' and q['ok']]
+            if idxs:
+                lops = [o for j, o in enumerate(par) if j != ti] + suf
+                syncs.append((base + ti, max(idxs), dict(flat.blk), later_values(lops, c['g']), lops,
+                              'flush_meta+fsync_range running concurrently (task %d of the batch)' % ti))
+    syncs.sort(key=lambda x: x[1])
+    return syncs
+
+
+def gen_conc_histories(rng, d, n, prefix):
+    """sequential writes, then a batch of concurrent operations containing a sync (Y) next to discards, writes and
+    cache shrinking on clusters that share L2 / refcount slices with the acknowledged writes"""
+    cases = []
+    for k in range(n):
+        cid = '%sp%d' % (prefix, k)
+        cbx = rng.choice([9, 10, 12])
+        g = hist.Geom(cbx, rng.choice([2, 4, 6]), 40 << cbx, 9, (9, rng.choice([2, 8]) << 9), (9, rng.choice([2, 8]) << 9), punch=rng.choice([1, 0]))
+        cs = g.cs
+        cl = rng.sample(range(0, 38), 8)
+        tag = 0
+        pre = []
+        # clusters that exist (and are durable) before the interesting part
+        for c0 in cl[:rng.randrange(1, 3)]:
+            tag += 1
+            pre.append(('W', c0 * cs, cs, tag))
+        if rng.random() < 0.7:
+            pre.append(('Y',))
+        # acknowledged but not yet flushed writes
+        for c0 in cl[2:2 + rng.randrange(1, 4)]:
+            tag += 1
+            pre.append(('W', c0 * cs + rng.choice([0, 512]), rng.choice([512, cs]), tag))
+        par = [('Y',), ('D', cl[0] * cs, cs * rng.choice([1, 1, 2]))]
+        for _ in range(rng.randrange(0, 3)):
+            r = rng.random()
+            if r < 0.5:
+                tag += 1
+                par.append(('W', rng.choice(cl[5:]) * cs + rng.choice([0, 512]), rng.choice([512, cs]), tag))
+            elif r < 0.7:
+                par.append(('K',))
+            elif r < 0.85:
+                par.append(('D', cl[1] * cs, cs))
+            else:
+                par.append(('Y',))
+        rng.shuffle(par)
+        suf = []
+        if rng.random() < 0.3:
+            tag += 1
+            suf.append(('W', rng.choice(cl[5:]) * cs, 512, tag))
+        # the same operations under several schedules (seed, scheduling mode, start delays)
+        for sv in range(3):
+            delays = [rng.choice([0, 0, 0, 3, 8, 15, 30]) for _ in par]
+            lines = [hist.op_line(o) for o in pre]
+            lines.append('par %d %d %d %d' % (rng.randrange(1, 1 << 40), rng.choice([0, 0, 1, 2, 3]), 200000, len(par)))
+            lines += [('@%d ' % dl if dl else '') + hist.op_line(o) for o, dl in zip(par, delays)]
+            lines += [hist.op_line(o) for o in suf]
+            lines.append('L lg')
+            scid = '%s_s%d' % (cid, sv)
+            text = 'case %s\nimage format %d %d %d 512\nopt punch=%d\nX init\nopen %s\n%s\nend\n' % (scid, g.size, g.cb, g.ro, g.punch, g.params(), '\n'.join(lines))
+            cases.append({'cid': scid, 'g': g, 'ops': pre + [('par', par, delays)] + suf, 'par': (pre, par, suf), 'text': text, 'flat0': hist.Flat(g.size), 'images': None, 'descs': None})
+    return cases
+
+
 def run_prop(prop, tier, seed, replay):
     t = qv.Timer()
     rng = qv.Rng(seed)
     gate = {'ok': True, 'obligations': 0, 'discharged': 0, 'failed': None, 'axioms': [], 'checker_cmd': '', 'gen': {}}
     if prop == 'C04':
         # soundness of the checker that judges the crash images
-        gate = common.proof_gate('C04', ['Spec/Entries.v', 'Spec/Image.v', 'Proofs/SpecProps.v', 'Props/C04.v'])
+        gate = common.proof_gate('C04', ['Spec/Entries.v', 'Spec/Image.v', 'Model/Crash.v', 'Proofs/SpecProps.v', 'Proofs/CrashProps.v', 'Props/C04.v'])
     rc, out = qv.harness_build()
     if rc != 0:
         print(out[-3000:])
@@ -88,6 +219,7 @@ def run_prop(prop, tier, seed, replay):
     nh = 60 if tier == 'quick' else 400
     budget = 400 if tier == 'quick' else 2500
     cases = gen_histories(rng, d, nh, prop.lower() + '_')
+    cases += gen_conc_histories(rng, d, nh // 3, prop.lower() + '_')
     obs = seqrun.run_cases_text(d, [(c['cid'], c['text']) for c in cases], timeout=900)
     finds = []
     nimg = 0
@@ -100,32 +232,36 @@ def run_prop(prop, tier, seed, replay):
         if not (os.path.exists(lp) and os.path.exists(ip)):
             continue
         ls = obs.get(cid, [])
-        if any(l.startswith('hang') or (' panic' in l) for l in ls):
+        if any(l.startswith('hang') or (' panic' in l) or (l.startswith('par ') and not l.startswith('par finished')) for l in ls):
             stats['history_aborted'] += 1
             continue
         reqs = crash.parse_log(lp)
         f0 = open(ip, 'rb').read()
-        res = {int(l.split()[1]): l.split()[2:] for l in ls if l.startswith('res ')}
-        # op numbering: open is op 0, ops follow
-        opres = [res.get(i + 1, ['?']) for i in range(len(c['ops']))]
-        # ---- sync points (for C05): S ok right after F ok
-        syncs = []
-        flat = hist.Flat(c['g'].size, init=c['flat0'].blk)
-        flat.alloc = set(c['flat0'].alloc)
-        later_vals = None
-        states = []   # per op: snapshot after op
-        for oi, op in enumerate(c['ops']):
-            ok = opres[oi][0] == 'ok'
-            if op[0] == 'W' and ok:
-                flat.write(op[1], op[2], op[3], c['g'].cs)
-            elif op[0] == 'D' and ok:
-                flat.discard(op[1], op[2], c['g'].cs)
-            states.append(dict(flat.blk))
-            if op[0] == 'S' and ok and oi > 0 and c['ops'][oi - 1][0] == 'F' and opres[oi - 1][0] == 'ok':
-                # index of the last request of this op in the log
-                idxs = [i for i, r in enumerate(reqs) if r['op'] == oi + 1]
-                if idxs:
-                    syncs.append((oi, max(idxs)))
+        syncs = conc_syncs(c, reqs, ls) if c.get('par') else seq_syncs(c, reqs, ls)
+        if prop == 'C04':
+            # every crash state of every prefix, through the discipline theorem (see crash.discipline)
+            dstat, dec, dinfo = crash.discipline(cid, f0, reqs, d)
+            stats['discipline_' + dstat] += 1
+            if dstat in ('undecodable', 'tie'):
+                stats['discipline_%s: %s' % (dstat, ' '.join(str(dinfo).split()[:6]))] += 1
+            if dstat == 'undisciplined':
+                gi = list(crash.guided_images(f0, reqs, dec, dinfo[0], dinfo[1]))
+                gpaths = []
+                for j, (pi, desc, data) in enumerate(gi):
+                    gp = os.path.join(d, '%s.g%d.img' % (cid, j))
+                    open(gp, 'wb').write(data)
+                    gpaths.append(gp)
+                vd = qv.qdrv_check(gpaths, d)
+                hit = [j for j, gp in enumerate(gpaths) if vd.get(gp, {}).get('safe') != '1']
+                for gp in gpaths:
+                    os.remove(gp)
+                if hit:
+                    pi, desc, data = gi[hit[0]]
+                    v = vd.get(gpaths[hit[0]], {})
+                    finds.append(('unsafe', c, '%s: crash image is not a safe qcow2 image: supported=%s tables=%s under=%s (found through the discipline check of the request log: event %d breaks refcount >= references for host cluster %d)' % (
+                        desc, v.get('supported'), v.get('tables'), v.get('under'), dinfo[0], dinfo[1]), data))
+                    continue
+                stats['discipline_undisciplined_without_unsafe_image'] += 1
         imgs = []
         for (pi, desc, data) in crash.crash_images(f0, reqs, rng, budget):
             imgs.append((pi, desc, data))
@@ -144,7 +280,7 @@ def run_prop(prop, tier, seed, replay):
                     pi, desc, data = imgs[j]
                     r = reqs[pi]
                     finds.append(('unsafe', c, '%s (request %s %d+%d of op %d %s): crash image is not a safe qcow2 image: supported=%s tables=%s under=%s' % (
-                        desc, r['kind'], r['off'], r['len'], r['op'], hist.op_line(c['ops'][r['op'] - 1]) if 0 < r['op'] <= len(c['ops']) else 'open',
+                        desc, r['kind'], r['off'], r['len'], r['op'], (hist.op_line(c['ops'][r['op'] - 1]) if not c.get('par') else 'task %d' % r['task']) if 0 < r['op'] <= len(c['ops']) else 'open',
                         v.get('supported'), v.get('tables'), v.get('under')), data))
                     break
         else:
@@ -159,7 +295,7 @@ def run_prop(prop, tier, seed, replay):
                 sp = [s for s in syncs if s[1] <= pi]
                 if not sp:
                     continue
-                soi, sidx = sp[-1]
+                soi = len(sp) - 1
                 if rng.random() > (0.5 if tier == 'quick' else 0.8):
                     continue
                 ccid = '%s_x%d' % (cid, j)
@@ -182,20 +318,7 @@ def run_prop(prop, tier, seed, replay):
                 if not op2 or not op2[0].startswith('open ok'):
                     finds.append(('open', c, '%s: the library cannot open the crash image: %s' % (desc, op2[0] if op2 else 'hang/none'), imgs[j][2]))
                     break
-                synced = states[soi]
-                # values later operations may have put there
-                later = collections.defaultdict(set)
-                for oi in range(soi + 1, len(c['ops'])):
-                    op = c['ops'][oi]
-                    if op[0] == 'W':
-                        for b in range(op[1] // 512, (op[1] + op[2] + 511) // 512):
-                            later[b].add('w%x' % ((op[3] << 40) | (b & 0xffffffffff)))
-                    elif op[0] == 'D':
-                        end = min(op[1] + op[2], c['g'].size)
-                        cs = c['g'].cs
-                        st, sp_ = (op[1] + cs - 1) // cs * cs, end // cs * cs
-                        for b in range(st // 512, max(st, sp_) // 512):
-                            later[b].add('w0')
+                _, _, synced, later, later_ops, slabel = syncs[soi]
                 vals = []
                 bad = None
                 for l in ls2:
@@ -218,11 +341,10 @@ def run_prop(prop, tier, seed, replay):
                     if bad.startswith('guest block'):
                         b = int(bad.split()[2])
                         cs_ = c['g'].cs
-                        for oi in range(soi + 1, len(c['ops'])):
-                            w = c['ops'][oi]
+                        for w in later_ops:
                             if w[0] == 'W' and w[1] // cs_ * cs_ <= b * 512 < (w[1] + w[2] + cs_ - 1) // cs_ * cs_:
                                 cls = 'stale-unsynced-write'
-                    finds.append((cls, c, '%s, sync point = op %d: %s' % (desc, soi + 1, bad), imgs[j][2]))
+                    finds.append((cls, c, '%s, sync point = %s: %s' % (desc, slabel, bad), imgs[j][2]))
                     break
         for p in paths:
             os.remove(p)
@@ -253,9 +375,9 @@ def run_prop(prop, tier, seed, replay):
         print('  finding [%s] %s [%s]: %s' % (cls, c['cid'], c['g'].desc(), desc[:420]))
     shutil.rmtree(d, ignore_errors=True)
     cov = {'evaluations': nimg, 'distinct_nontrivial': nimg,
-           'rule': 'crash images = (prefix of the completed request stream) x (subset of un-synced requests: all subsets up to %d pending, else nothing/everything/drop-one/keep-one + random) + block-level tearings; histories over library-formatted and independently built images incl. COW, discard, eviction write-back, flush_meta' % crash.EXH,
+           'rule': 'crash images = (prefix of the completed request stream) x (subset of un-synced requests: all subsets up to %d pending, else nothing/everything/drop-one/keep-one + random) + block-level tearings; histories over library-formatted and independently built images incl. COW, discard, eviction write-back, flush_meta; plus histories with a batch of concurrently running operations (sync next to discards / writes / cache shrinking on shared slices, 3 schedules each), whose request stream is taken in the order the effects reached the file' % crash.EXH,
            'samples': [{'geometry': c['g'].desc(), 'ops': [hist.op_line(o) for o in c['ops'][:10]]} for c in cases[:2]],
-           'histories': len(cases), 'crash_points': npoints, 'crash_images': nimg, 'notes': dict(stats), 'findings_by_class': dict(seen)}
+           'histories_whose_every_crash_state_is_covered_by_the_discipline_theorem': stats.get('discipline_covered', 0), 'histories': len(cases), 'concurrent_histories': sum(1 for c in cases if c.get('par')), 'crash_points': npoints, 'crash_images': nimg, 'notes': dict(stats), 'findings_by_class': dict(seen)}
     return common.finish(prop, tier, seed, 'exploration', gate, cov, t, violations, known,
                          ["the crash model is the property's own: un-synced requests independently persisted, lost or torn at 512-byte granularity; the file length follows the persisted writes"],
                          'Crash-state exploration judged by the extracted specification checker safeb (C04) / by the real library opened on the crash image (C05).')
